@@ -330,6 +330,33 @@ def h_other_numeric_types(eng, pairs):
         eng.prove(abs(Fraction(ri.magnitude) / (3 * exact) - 1) <= Fraction(1, 10**14), f"int-magnitude:{u}->{v}")
 
 
+def h_decimal_high_precision(eng):
+    """a Decimal registry built under a working precision of 60 digits converts to that precision:
+    the written definitions are evaluated in the caller's decimal context"""
+    import decimal
+
+    import pint
+    from pint.util import ParserHelper
+
+    ctx = decimal.getcontext()
+    old_prec = ctx.prec
+    try:
+        ctx.prec = 60
+        ParserHelper.from_string.cache_clear() if hasattr(ParserHelper.from_string, "cache_clear") else None
+        reg = pint.UnitRegistry(non_int_type=decimal.Decimal)
+        D = decimal.Decimal
+        for src, dst, exact in (("inch", "meter", Fraction(254, 10000)), ("foot", "meter", Fraction(3048, 10000)), ("mile", "inch", Fraction(63360)), ("degree_Rankine", "kelvin", Fraction(5, 9)), ("pound", "gram", Fraction(45359237, 100000))):
+            got = reg.Quantity(D(1), src).to(dst).magnitude
+            err = abs(Fraction(got) / exact - 1)
+            eng.prove(err <= Fraction(1, 10**55), f"decimal-prec-60:{src}->{dst}:accurate-to-the-working-precision")
+        reg.define("third = meter / 3")
+        got = reg.Quantity(D(1), "third").to("meter").magnitude
+        eng.prove(abs(Fraction(got) * 3 - 1) <= Fraction(1, 10**55), "decimal-prec-60:user-definition")
+    finally:
+        ctx.prec = old_prec
+        ParserHelper.from_string.cache_clear() if hasattr(ParserHelper.from_string, "cache_clear") else None
+
+
 def h_inplace_narrow_arrays(eng):
     """in-place conversion of an array whose dtype cannot hold the result (integers, uint8): either
     refused (the array and the unit stay as they were) or numerically the converted values --
@@ -520,6 +547,7 @@ def cases(tier, seed):
     for i in range(0, len(exact_pairs), 60):
         out.append(Case("H02.f", f"{i:05d}", M, "h_other_numeric_types", {"pairs": exact_pairs[i : i + 60]}, kind="conc"))
     out.append(Case("H02.f", "inplace-narrow-arrays", M, "h_inplace_narrow_arrays", {}, kind="conc"))
+    out.append(Case("H02.f", "decimal-high-precision", M, "h_decimal_high_precision", {}, kind="conc"))
     # H02.d generated registries with symbolic scales
     for t in TEMPLATES:
         out.append(Case("H02.d", t[0], M, "h_generated", {"tname": t[0]}, weight=5.0))
